@@ -198,6 +198,8 @@ func RoundKeep(p *load.Program, name func(*ssa.Function) string, overlay map[str
 			return res
 		}
 	}
+	importsAdded := map[string]bool{}
+	importsDropped := map[string]bool{}
 	overlaps := func(file string, s, e int) bool {
 		for _, ed := range edits[file] {
 			if s < ed.end && ed.start < e {
@@ -230,6 +232,11 @@ func RoundKeep(p *load.Program, name func(*ssa.Function) string, overlay map[str
 			file string
 			ed   edit
 		}
+		type impAdd struct {
+			file       *ast.File
+			name, path string
+		}
+		var addImports []impAdd
 		ok := true
 		reason := ""
 		for _, s := range sites {
@@ -246,8 +253,18 @@ func RoundKeep(p *load.Program, name func(*ssa.Function) string, overlay map[str
 				ok, reason = false, w
 				break
 			}
-			if w := importRisk(cd.fd, cd.file, s.file, cd.pkg); w != "" {
+			w, missing := importRisk(cd.fd, cd.file, s.file, cd.pkg)
+			if w != "" {
 				ok, reason = false, w
+				break
+			}
+			for nm, path := range missing {
+				if s.pkg.Types.Scope().Lookup(nm) != nil {
+					ok, reason = false, "the caller's package declares "+nm+", which the helper uses as a package name"
+				}
+				addImports = append(addImports, impAdd{s.file, nm, path})
+			}
+			if !ok {
 				break
 			}
 			*counter++
@@ -297,6 +314,59 @@ func RoundKeep(p *load.Program, name func(*ssa.Function) string, overlay map[str
 			edits[pe.file] = append(edits[pe.file], pe.ed)
 		}
 		edits[dfile] = append(edits[dfile], edit{ds, de, ""})
+		// imports the inlined body needs in the caller's file (analysis-only overlay)
+		for _, ia := range addImports {
+			fname := p.Fset.Position(ia.file.Pos()).Filename
+			key := fname + "\x00" + ia.name
+			if importsAdded[key] {
+				continue
+			}
+			importsAdded[key] = true
+			off := p.Fset.Position(ia.file.Name.End()).Offset
+			edits[fname] = append(edits[fname], edit{off, off, "\nimport " + ia.name + " \"" + ia.path + "\"\n"})
+		}
+		// imports of the helper's own file that only the helper used (unless the body lands in that same file)
+		sameFile := false
+		for _, st := range sites {
+			if st.file == cd.file {
+				sameFile = true
+			}
+		}
+		usedElsewhere := map[string]bool{}
+		usedByHelper := map[string]bool{}
+		ast.Inspect(cd.file, func(n ast.Node) bool {
+			id, isID := n.(*ast.Ident)
+			if !isID {
+				return true
+			}
+			if pn, isPkg := cd.pkg.TypesInfo.Uses[id].(*types.PkgName); isPkg {
+				if id.Pos() >= cd.fd.Pos() && id.End() <= cd.fd.End() {
+					usedByHelper[pn.Name()] = true
+				} else {
+					usedElsewhere[pn.Name()] = true
+				}
+			}
+			return true
+		})
+		for _, im := range cd.file.Imports {
+			path := strings.Trim(im.Path.Value, "\"")
+			nm := path[strings.LastIndex(path, "/")+1:]
+			if im.Name != nil {
+				nm = im.Name.Name
+			}
+			if obj := cd.pkg.TypesInfo.Implicits[im]; obj != nil {
+				nm = obj.Name()
+			}
+			if !sameFile && usedByHelper[nm] && !usedElsewhere[nm] && !importsDropped[dfile+"\x00"+nm] {
+				// still used by another helper of the same file that this round removes? then a later
+				// round drops it; dropping it twice is prevented by the set
+				st, en := p.Fset.Position(im.Pos()).Offset, p.Fset.Position(im.End()).Offset
+				if !overlaps(dfile, st, en) {
+					importsDropped[dfile+"\x00"+nm] = true
+					edits[dfile] = append(edits[dfile], edit{st, en, ""})
+				}
+			}
+		}
 		res.Inlined = append(res.Inlined, fmt.Sprintf("%s (%d call sites)", cd.qn, len(sites)))
 	}
 	for file, eds := range edits {
@@ -1044,10 +1114,12 @@ func crossQuals(fset *token.FileSet, fd *ast.FuncDecl, pk *packages.Package, s s
 	return out, why
 }
 
-// importRisk: packages named in the callee body must be imported under the same name in the caller's file.
-func importRisk(fd *ast.FuncDecl, calleeFile, callerFile *ast.File, pk *packages.Package) string {
+// importRisk: packages named in the callee body must be imported under the same name in the caller's
+// file. A package the caller's file does not import at all is returned in `missing` (name -> path): the
+// overlay adds the import. A name that the caller's file uses for a different package cannot be fixed.
+func importRisk(fd *ast.FuncDecl, calleeFile, callerFile *ast.File, pk *packages.Package) (why string, missing map[string]string) {
 	if calleeFile == callerFile {
-		return ""
+		return "", nil
 	}
 	imported := map[string]string{}
 	for _, im := range callerFile.Imports {
@@ -1058,20 +1130,25 @@ func importRisk(fd *ast.FuncDecl, calleeFile, callerFile *ast.File, pk *packages
 		}
 		imported[name] = path
 	}
-	why := ""
+	missing = map[string]string{}
 	ast.Inspect(fd, func(n ast.Node) bool {
 		id, ok := n.(*ast.Ident)
 		if !ok {
 			return true
 		}
 		if pn, isPkg := pk.TypesInfo.Uses[id].(*types.PkgName); isPkg {
-			if imported[id.Name] != pn.Imported().Path() {
-				why = "the caller's file does not import " + pn.Imported().Path() + " as " + id.Name
+			have, present := imported[id.Name]
+			switch {
+			case !present:
+				missing[id.Name] = pn.Imported().Path()
+			case have != pn.Imported().Path():
+				why = "the caller's file imports another package as " + id.Name
 			}
 		}
 		return true
 	})
-	return why
+	// a top-level name of the caller's package must not be shadowed by the new import name
+	return why, missing
 }
 
 func nodeText(fset *token.FileSet, src func(string) []byte, n ast.Node) string {
@@ -1699,6 +1776,112 @@ func SplitCaseOr(p *load.Program, overlay map[string][]byte) (map[string][]byte,
 				}
 				return true
 			})
+			if len(repls) == 0 {
+				continue
+			}
+			nb := append([]byte(nil), b...)
+			sort.Slice(repls, func(i, j int) bool { return repls[i].from > repls[j].from })
+			for _, r := range repls {
+				if r.from < 0 || r.to > len(nb) || r.from > r.to {
+					continue
+				}
+				nb = append(nb[:r.from], append([]byte(r.text), nb[r.to:]...)...)
+			}
+			out[file] = nb
+		}
+	}
+	return out, notes
+}
+
+// ExplicitBoolReturns rewrites `return E` in a function with a single bool result, where E calls a
+// function outside the pinned vocabulary (a helper introduced by a refactoring), into
+// `if E { return true }; return false`. E is evaluated once in both forms; the verdicts become
+// constants and the condition gets its own branch, which is the shape the rules read once the helper
+// has been inlined.
+func ExplicitBoolReturns(p *load.Program, name func(*ssa.Function) string, overlay map[string][]byte) (map[string][]byte, []string) {
+	out := map[string][]byte{}
+	var notes []string
+	src := func(file string) []byte {
+		if b, ok := overlay[file]; ok {
+			return b
+		}
+		b, _ := readFile(file)
+		return b
+	}
+	for _, pk := range p.Closure {
+		for _, f := range pk.Syntax {
+			file := p.Fset.Position(f.Pos()).Filename
+			if strings.HasSuffix(file, "_test.go") {
+				continue
+			}
+			type repl struct {
+				from, to int
+				text     string
+			}
+			var repls []repl
+			b := src(file)
+			for _, d := range f.Decls {
+				fd, ok := d.(*ast.FuncDecl)
+				if !ok || fd.Body == nil || fd.Type.Results == nil || len(fd.Type.Results.List) != 1 || len(fd.Type.Results.List[0].Names) > 0 {
+					continue
+				}
+				if tv, ok := pk.TypesInfo.Types[fd.Type.Results.List[0].Type]; !ok || !types.Identical(tv.Type, types.Typ[types.Bool]) {
+					continue
+				}
+				// a helper that is itself outside the vocabulary: all its computed verdicts are made explicit,
+				// so that inlining it leaves branches and not a merged boolean
+				ownHelper := false
+				if obj, _ := pk.TypesInfo.Defs[fd.Name].(*types.Func); obj != nil {
+					if sf := p.SSA.FuncValue(obj); sf != nil && !Known(name(sf)) {
+						ownHelper = true
+					}
+				}
+				ast.Inspect(fd.Body, func(n ast.Node) bool {
+					if _, isLit := n.(*ast.FuncLit); isLit {
+						return false
+					}
+					rs, ok := n.(*ast.ReturnStmt)
+					if !ok || len(rs.Results) != 1 {
+						return true
+					}
+					if id, isID := rs.Results[0].(*ast.Ident); isID && (id.Name == "true" || id.Name == "false") {
+						return true
+					}
+					helper := ownHelper
+					ast.Inspect(rs.Results[0], func(m ast.Node) bool {
+						call, ok := m.(*ast.CallExpr)
+						if !ok {
+							return true
+						}
+						var id *ast.Ident
+						switch fx := call.Fun.(type) {
+						case *ast.Ident:
+							id = fx
+						case *ast.SelectorExpr:
+							id = fx.Sel
+						}
+						if id == nil {
+							return true
+						}
+						obj, _ := pk.TypesInfo.Uses[id].(*types.Func)
+						if obj == nil || obj.Pkg() == nil || !p.InModule(obj.Pkg()) {
+							return true
+						}
+						if sf := p.SSA.FuncValue(obj); sf != nil && !Known(name(sf)) {
+							helper = true
+						}
+						return true
+					})
+					if !helper {
+						return true
+					}
+					from, to := p.Fset.Position(rs.Pos()).Offset, p.Fset.Position(rs.End()).Offset
+					e := string(b[p.Fset.Position(rs.Results[0].Pos()).Offset:p.Fset.Position(rs.Results[0].End()).Offset])
+					repls = append(repls, repl{from, to, "if " + e + " {\nreturn true\n}\nreturn false"})
+					notes = append(notes, fmt.Sprintf("made the verdicts of `return %s` explicit at %s (analysis only)", e, p.Fset.Position(rs.Pos())))
+					return true
+				})
+			}
 			if len(repls) == 0 {
 				continue
 			}
